@@ -18,12 +18,11 @@ from __future__ import annotations
 import asyncio
 import asyncio.base_events as _be
 import asyncio.events as _ev
-import gc
 import itertools
 import logging
 import math
 import threading
-from datetime import timedelta
+from datetime import timedelta, timezone
 
 from hypothesis import strategies as st
 
@@ -44,15 +43,22 @@ RULE = (
     "or while the loop is not running (an F op on a running loop is executed as L). The loop is the stdlib loop with fake time, a "
     "cooperative non-blocking selector and a cooperative self-wakeup; yield points are source lines of reactivex, "
     "asyncio/base_events.py and asyncio/events.py. Schedules are 2-thread priority schedules: an initial priority (T0 or T1 runs "
-    "whenever it can) and d priority flips at chosen steps; 'enum' runs, for 110 enumerated programs, BOTH initial priorities and "
-    "EVERY effective position of one flip (quick) / additionally of two flips for 34 of them (thorough); 'gen' draws programs (2-9 ops with at least one schedule followed by a dispose, delays 0-5 ms, "
+    "whenever it can) and d priority flips at chosen steps; 'enum' runs, for 121 enumerated programs, BOTH initial priorities and "
+    "EVERY effective position of one flip (quick) / additionally of two flips for 65 of them (thorough); 'gen' draws programs (2-9 ops with at least one schedule followed by a dispose, delays 0-5 ms, "
     "negative abs) and <=3 flips. Oracle per run, on the sequentially consistent event log: every action start happens on T0 with "
     "the OS thread id of the running loop and get_running_loop() is the loop; start clock >= schedule-call clock + delay; NO action "
     "start after the dispose() of that item returned; a never-disposed action ran by the time the loop has run past its due time; "
     "no action ran twice; no deadlock (dispose() blocking forever while the loop runs), no exception escaped from the library "
     "calls or loop callbacks. Non-trivial: in some explored run a dispose() began while the item's handle chain was in flight: "
     "immediate handle queued but not yet run, stage-1 handle of a relative schedule queued but stage 2 not begun, or stage 2 "
-    "(loop.call_later) executing during dispose(). Distinct = distinct case JSON."
+    "(loop.call_later) executing during dispose(). Distinct = distinct case JSON. "
+    "Absolute due times are given as aware UTC datetime ('abs'), aware non-UTC datetimes ('abs+0530', 'abs-0800') or POSIX timestamp "
+    "('absf') of the same instant. 'enum3'/'gen3': cases with 'ops2' add a second foreign thread T2 (bare worker thread) that, once the "
+    "loop runs, schedules and disposes concurrently with T1 -- also items T1 scheduled (negative ref = own items only); T1 then never "
+    "stops the loop before T2 finished. Their schedules name a favoured thread (runs whenever it can; otherwise the engine's default: "
+    "current thread, else lowest id) that changes at d change points; enum3 runs all 3 initial favourites x every change point where "
+    "the newly favoured thread is runnable (d=1) for 6 (quick) / 14 (thorough) programs, gen3 draws programs and <=3 change points. "
+    "Same oracle per item."
 )
 ASSUMPTIONS = [
     "each disposable is disposed at most once (overlapping dispose() calls on one disposable from two threads are outside the quantifier)",
@@ -60,12 +66,13 @@ ASSUMPTIONS = [
     "the plain AsyncIOScheduler is used on the loop thread or while the loop is not running (its documented domain)",
     "C-level atomicity of CPython (GIL build): a source line is the unit of interleaving; stdlib code other than asyncio/base_events.py and asyncio/events.py is atomic",
     "loop.time / loop._selector / loop._write_to_self of the real loop object are harness replacements (fake clock, cooperative wait); self-pipe I/O is not exercised",
-    "bounds: 2 logical threads, <=9 ops, <=1 (quick) / <=2 (thorough) exhaustive priority flips, <=3 drawn",
+    "bounds: 2 logical threads (3 in enum3/gen3), <=9 ops per thread, <=1 (quick) / <=2 (thorough, 2-thread programs) exhaustive priority flips, <=3 drawn",
+    "naive datetimes are not used as absolute due times (their meaning is not defined by the property)",
 ]
 
 _TRACE = (_be.__file__, _ev.__file__)
 MAX_STEPS = 4000
-RUN_KW = dict(extra_trace=_TRACE, reuse_threads=True, max_steps=MAX_STEPS, wall_timeout=60.0)
+RUN_KW = dict(extra_trace=_TRACE, reuse_threads=True, max_steps=MAX_STEPS, wall_timeout=300.0, stall_timeout=120.0)  # wall-clock backstops only: generous, the shared machine can be heavily overloaded
 
 
 class _CoopSelector:
@@ -75,9 +82,8 @@ class _CoopSelector:
         self._real, self._wake = real, wake
 
     def select(self, timeout=None):
-        h = det._H
-        if h is not None and h.aborting:  # run is being torn down: leave run_forever
-            raise det._Abort()
+        if det.aborting():  # run is being torn down: leave run_forever
+            raise det.Abort()
         w = self._wake
         if w.is_set():  # a wake-up byte is pending: the real selector would return the self-pipe at once
             w.clear()
@@ -101,13 +107,12 @@ class _World:
         from reactivex.scheduler.eventloop import AsyncIOScheduler, AsyncIOThreadSafeScheduler
 
         self.case = case
-        self.clock = det._clock
         self.loop = loop = asyncio.new_event_loop()
         self.wake = det.CEvent()
         self._real_selector = loop._selector
         loop._selector = _CoopSelector(self._real_selector, self.wake)
         loop._write_to_self = self.wake.set
-        loop.time = lambda: self.clock.us / 1e6
+        loop.time = lambda: det.clock_us() / 1e6
         self.go, self.running_evt, self.stopped = det.CEvent(), det.CEvent(), det.CEvent()
         self.first_iter = False
         self.finished = False
@@ -117,6 +122,8 @@ class _World:
         self.items = []
         self.skipped = 0
         self.other = None
+        self.t2_go, self.t2_done = det.CEvent(), det.CEvent()
+        self.three = "ops2" in case
         real_once = loop._run_once
 
         def run_once():
@@ -143,7 +150,7 @@ class _World:
     # ---- loop plumbing -------------------------------------------------------------------------
     def _on_loop_exception(self, loop, context):
         e = context.get("exception")
-        if isinstance(e, det._Abort):  # Handle._run swallowed the unwinding of an aborted run
+        if isinstance(e, det.Abort):  # Handle._run swallowed the unwinding of an aborted run
             self.aborted = True
             loop.stop()
             return
@@ -190,6 +197,7 @@ class _World:
             self.running_evt.clear()
             self.running = True
             det.log("loop-started")
+            self.t2_go.set()
 
     def _stop(self):
         if self.running:
@@ -207,7 +215,7 @@ class _World:
 
         def action(scheduler, state):
             det.yield_point("action")
-            det.log("start", k, self.clock.us, threading.get_ident() == loop._thread_id, asyncio._get_running_loop() is loop, state == k)
+            det.log("start", k, det.clock_us(), threading.get_ident() == loop._thread_id, asyncio._get_running_loop() is loop, state == k)
             return None
 
         action._c33_k = k
@@ -216,9 +224,10 @@ class _World:
     def _do_sched(self, k):
         it = self.items[k]
         kind, ms = it["kind"], it["ms"]
-        it["call_us"] = self.clock.us
+        it["call_us"] = det.clock_us()
         it["due_us"] = it["call_us"] + (max(0, ms) * 1000 if kind != "now" else 0)
         it["on"] = "loop" if det.current_tid() == 0 else "foreign"
+        it["by"] = det.current_tid()
         it["running_at_sched"] = self.running
         det.log("scall", k)
         action = self._make_action(k)
@@ -226,8 +235,18 @@ class _World:
             d = self.sch.schedule(action, state=k)
         elif kind == "rel":
             d = self.sch.schedule_relative(ms / 1000.0 if ms % 2 else timedelta(milliseconds=ms), action, state=k)
-        else:
-            d = self.sch.schedule_absolute(self.sch.now + timedelta(milliseconds=ms), action, state=k)
+        else:  # the same instant in four spellings of AbsoluteTime: aware UTC / aware non-UTC datetimes, POSIX timestamp
+            inst = self.sch.now + timedelta(milliseconds=ms)
+            form = kind[3:]
+            if form == "+0530":
+                inst = inst.astimezone(timezone(timedelta(hours=5, minutes=30)))
+            elif form == "-0800":
+                inst = inst.astimezone(timezone(timedelta(hours=-8)))
+            elif form == "f":
+                inst = inst.timestamp()
+            elif form:
+                raise HarnessError(f"bad kind {kind}")
+            d = self.sch.schedule_absolute(inst, action, state=k)
         it["disp"] = d
         det.log("sret", k)
 
@@ -239,6 +258,7 @@ class _World:
             det.log("dskip", k)
             return
         it["dwhere"] = where if where == "L" else ("F" if self.running else "F-stopped")
+        it["dby"] = det.current_tid()
         det.log("dcall", k)
         it["disp"].dispose()
         det.log("dret", k)
@@ -265,17 +285,28 @@ class _World:
             asyncio._set_running_loop(None)
             asyncio.set_event_loop(None)
 
-    def _direct(self):
-        case = self.case
-        plain = case["sch"] == "plain"
-        max_ms = 0
-        for op in case["ops"]:
+    def t2(self):
+        """Second foreign thread (cases with "ops2"): a bare worker thread without any asyncio state of its own that
+        schedules and disposes -- also items scheduled by T1 -- while the loop runs.  It begins once the director has
+        started the loop; the director does not stop the loop before T2 has finished (no stop during a dispose())."""
+        if asyncio._get_running_loop() is not None:
+            raise HarnessError("pooled worker thread still has a running loop set")
+        try:
+            self.t2_go.wait()
+            self._interpret(self.case["ops2"], 2)
+        finally:
+            asyncio._set_running_loop(None)
+            asyncio.set_event_loop(None)
+            self.t2_done.set()
+
+    def _interpret(self, ops, me):
+        plain = self.case["sch"] == "plain"
+        for op in ops:
             name = op[0]
             if name == "sched":
                 _, kind, ms, where = op
                 k = len(self.items)
-                self.items.append({"kind": kind, "ms": ms, "disp": None, "dreq": False, "call_us": None, "due_us": None, "dwhere": None})
-                max_ms = max(max_ms, ms)
+                self.items.append({"kind": kind, "ms": ms, "disp": None, "dreq": False, "call_us": None, "due_us": None, "dwhere": None, "owner": me})
                 if where == "L" or (plain and self.running):
                     self._post(lambda k=k: self._do_sched(k))
                 else:
@@ -283,6 +314,9 @@ class _World:
             elif name == "dispose":
                 _, ref, where = op
                 cand = [i for i, it in enumerate(self.items) if not it["dreq"]]
+                if ref < 0:  # negative ref: only items this thread scheduled itself
+                    cand = [i for i in cand if self.items[i]["owner"] == me]
+                    ref = -ref - 1
                 if not cand:
                     continue
                 k = cand[ref % len(cand)]
@@ -293,14 +327,22 @@ class _World:
                     self._do_dispose(k, "F")
             elif name == "sleep":
                 det.CEvent().wait(op[1] / 1000.0)
-            elif name == "start":
+            elif name == "start" and me == 1:
                 self._start()
-            elif name == "stop":
-                self._stop()
-            else:
+            elif name == "stop" and me == 1:
+                if not self.three:  # with a second foreign thread the loop keeps running until the epilogue
+                    self._stop()
+            elif name not in ("start", "stop"):
                 raise HarnessError(f"bad op {op}")
+
+    def _direct(self):
+        case = self.case
+        max_ms = max([op[2] for op in case["ops"] + case.get("ops2", []) if op[0] == "sched"] + [0])
+        self._interpret(case["ops"], 1)
         # epilogue: the loop runs until every live timer is overdue, then stops; T0 ends
         self._start()
+        if self.three:
+            self.t2_done.wait()
         det.CEvent().wait((max_ms + 5) / 1000.0)
         det.log("epilogue")
         self._stop()
@@ -325,6 +367,16 @@ def _item_of(callback):
 # ---------------------------------------------------------------------------------------------
 def _entries(first, flips, n):
     """Dense det schedule for a 2-thread priority schedule: `first` has priority until the first flip."""
+    if flips and isinstance(flips[0], (list, tuple)):  # 3-thread form: [[step, tid]...] = `tid` is favoured from `step` on
+        at = {}
+        for c, t in flips:
+            at.setdefault(int(c), int(t))
+        out = []
+        prio = first
+        for s in range(n):
+            prio = at.get(s, prio)
+            out.append((s, prio))
+        return out
     fl = sorted(set(int(c) for c in flips))
     out = []
     prio = first
@@ -339,20 +391,18 @@ def _entries(first, flips, n):
 
 def _run(case, first, flips, n_entries=1000):
     """One run of the case under the priority schedule (first, flips).  Returns (RunResult, _World)."""
-    c0 = det._clock.us
+    c0 = det.clock_us()
     while True:
         w = _World(case)
-        # no cyclic GC inside a run: a finalizer such as BaseEventLoop.__del__ of an earlier loop object would execute
-        # traced lines on a controlled thread at an arbitrary point and make the step numbering irreproducible
-        gc_was = gc.isenabled()
-        gc.disable()
-        try:
-            res = det.run_program([w.t0, w.t1], _entries(first, flips, n_entries), names=["T0-loop", "T1-director"], **RUN_KW)
+        threads, names = [w.t0, w.t1], ["T0-loop", "T1-director"]
+        if "ops2" in case:
+            threads.append(w.t2)
+            names.append("T2-foreign")
+        try:  # (det switches cyclic GC off during a run: no BaseEventLoop.__del__ of an older loop on a controlled thread)
+            res = det.run_program(threads, _entries(first, flips, n_entries), names=names, clock_us=c0, **RUN_KW)
         finally:
-            det._clock.us = c0
+            det.set_clock_us(c0)
             w.close()
-            if gc_was:
-                gc.enable()
         for e in w.loop_errors:
             if isinstance(e, HarnessError):
                 raise e
@@ -384,6 +434,11 @@ def _both(res, after=-1):
     return [s for s in range(after + 1, res.steps) if len(res.choices[s]) > 1]
 
 
+def _alts(res, after=-1):
+    """3-thread programs: every [step, tid] with tid runnable at that step but not the thread that ran it."""
+    return [[s, t] for s in range(after + 1, res.steps) for t in res.choices[s] if t != res.owners[s]]
+
+
 # ---------------------------------------------------------------------------------------------
 # oracle
 # ---------------------------------------------------------------------------------------------
@@ -396,7 +451,9 @@ def _judge(case, w, res):
         return (f"escaped:{type(e).__name__}|{sch}", f"thread {tid}: {e!r}"), classes
     if w.loop_errors:
         e = w.loop_errors[0]
-        return (f"loop-callback-raised:{type(e).__name__}|{sch}", f"{e!r}"), classes
+        import re
+
+        return (f"loop-callback-raised:{type(e).__name__}|{sch}", re.sub(r" at 0x[0-9a-f]+", "", f"{e!r}")), classes
     if res.deadlock:
         waiting = [it for it in w.items if it.get("dwhere")]
         import re
@@ -445,6 +502,8 @@ def _judge(case, w, res):
             classes.add("action-ran")
         if dcall is not None:
             classes.add(f"dispose:{it['dwhere']}")
+            if it.get("dby") in (1, 2) and it.get("by") in (1, 2) and it["dby"] != it["by"]:
+                classes.add("dispose:by-other-foreign-thread")
             started_before = any(i < dcall for i, _, _ in ss)
             during = any(dcall < i < (dret if dret is not None else 1 << 60) for i, _, _ in ss)
             two_stage = sch == "ts" and it["kind"] != "now" and it["ms"] > 0
@@ -472,6 +531,11 @@ def _judge(case, w, res):
     if w.skipped:
         classes.add("dispose-skipped")
     classes.add(f"cur:{case.get('cur', 'none')}")
+    if w.three:
+        classes.add("threads:3")
+        spans = [(pos[("dcall", k)], pos.get(("dret", k), 1 << 60), it["dby"]) for k, it in enumerate(w.items) if ("dcall", k) in pos and it["dwhere"] == "F"]
+        if any(a[2] != b[2] and a[0] < b[1] and b[0] < a[1] for a in spans for b in spans):
+            classes.add("two-marshalled-disposes-overlap")
     return None, classes
 
 
@@ -524,14 +588,24 @@ def run_case(case):
             _selftest()
             if sched["mode"] == "all":
                 return _run_all(case, sched["K"])
-            first = sched["first"] % 2
+            three = "ops2" in case
+            first = sched["first"] % (3 if three else 2)
             if sched["mode"] == "exact":
-                flips = [int(c) for c in sched["flips"]]
+                flips = [([int(c[0]), int(c[1])] if three else int(c)) for c in sched["flips"]]
+            elif three:
+                base, _ = _run(case, first, [])
+                alts = _alts(base)
+                by_step = {}
+                for p in sched["flips"]:
+                    if alts:
+                        c, t = alts[int(p) % len(alts)]
+                        by_step.setdefault(c, t)
+                flips = [[c, by_step[c]] for c in sorted(by_step)]
             else:
                 base, _ = _run(case, first, [])
                 both = _both(base)
                 flips = sorted({both[int(p) % len(both)] for p in sched["flips"]}) if both else []
-            if sum(flips) % 4 == 0:
+            if sum(c[0] if three else c for c in flips) % 4 == 0:
                 res, w = _run_checked(case, first, flips)
             else:
                 res, w = _run(case, first, flips)
@@ -561,7 +635,9 @@ def _run_all(case, K):
     runs = 0
     incomplete = 0
     found = {}  # sig -> (first, flips)
-    for first in (0, 1):
+    three = "ops2" in case
+    cands = _alts if three else _both
+    for first in (0, 1, 2) if three else (0, 1):
         level = [[]]
         for k in range(K + 1):
             nxt = []
@@ -580,7 +656,8 @@ def _run_all(case, K):
                 incomplete += not res.complete
                 seen |= classes
                 if k < K:
-                    nxt.extend(flips + [c] for c in _both(res, flips[-1] if flips else -1))
+                    last = -1 if not flips else (flips[-1][0] if three else flips[-1])
+                    nxt.extend(flips + [c] for c in cands(res, last))
             level = nxt
     if found:
         sig = min(found, key=lambda s_: (_rank(s_), s_))
@@ -612,23 +689,23 @@ def _programs():
     for s in S_ts:  # dispose before / exactly at / after the due time
         for ms in (1, 2, 3):
             for d in D:
-                out.append(("ts", [["start"], s, ["sleep", ms], d], ms == 1 and s[3] == "F"))
+                out.append(("ts", [["start"], s, ["sleep", ms], d], s[3] == "F" or ms == 1))
     for s in S_f:  # loop not running
         out.append(("ts", [s, D[0], ["start"]], True))
         out.append(("ts", [s, ["start"], D[0]], True))
         out.append(("ts", [s, ["start"], D[1]], False))
         out.append(("ts", [s, D[1], ["start"]], False))
     for s in S_ts:  # stopped again, then restarted
-        out.append(("ts", [["start"], s, ["stop"], D[0], ["start"]], False))
+        out.append(("ts", [["start"], s, ["stop"], D[0], ["start"]], True))
         out.append(("ts", [["start"], s, ["sleep", 1], ["stop"], D[0], ["start"]], False))
     for a, b in itertools.product([S_ts[0], S_ts[1]], repeat=2):  # a neighbour that must still run
         for ref in (0, 1):
-            out.append(("ts", [["start"], a, b, ["dispose", ref, "F"]], False))
+            out.append(("ts", [["start"], a, b, ["dispose", ref, "F"]], ref == 0))
     for s in S_f:  # the foreign thread's own asyncio state: scheduler's loop as *current* loop, another loop current / running
         for cur in ("same", "other-running"):
-            out.append(("ts", [["start"], s, D[0]], cur == "same", cur))
+            out.append(("ts", [["start"], s, D[0]], True, cur))
             out.append(("ts", [["start"], s, ["sleep", 1], D[0]], False, cur))
-        out.append(("ts", [["start"], s, D[0]], False, "other"))
+        out.append(("ts", [["start"], s, D[0]], True, "other"))
         out.append(("ts", [s, D[0], ["start"]], False, "same"))
     S_pl = [["sched", "now", 0, "F"], ["sched", "rel", 2, "F"], ["sched", "abs", 2, "F"]]
     for s in S_pl:  # plain scheduler: before the loop starts, and on the loop thread
@@ -639,7 +716,43 @@ def _programs():
         for ms in (1, 2, 3):
             out.append(("plain", [["start"], s, ["sleep", ms], D[0]], False))
         out.append(("plain", [["start"], s, ["stop"], D[0], ["start"]], False))
+    for form in ("+0530", "-0800", "f"):  # the same due instant as aware non-UTC datetime / POSIX timestamp
+        s = ["sched", "abs" + form, 2, "F"]
+        out.append(("ts", [["start"], s, D[0]], False))
+        out.append(("ts", [["start"], s], False))
+        out.append(("plain", [["start"], s], False))
     return out
+
+
+def _programs3(tier):
+    """Programs with a second foreign thread: [(ops of T1, ops of T2)], all on the thread-safe scheduler."""
+    now, rel = ["sched", "now", 0, "F"], ["sched", "rel", 2, "F"]
+    own, any0 = ["dispose", -1, "F"], ["dispose", 0, "F"]
+    out = [
+        ([["start"], rel], [any0]),  # T2 disposes what T1 scheduled
+        ([["start"], now], [any0]),
+        ([["start"], rel, own], [rel, own]),  # two marshalled cancellations in flight
+        ([["start"], now, own], [now, own]),
+        ([["start"], rel, ["sleep", 1], own], [now, own]),
+        ([["start"], ["sched", "rel", 2, "L"], now], [["sleep", 1], any0, any0]),
+    ]
+    if tier == "thorough":
+        out += [
+            ([["start"], rel, own], [now, own]),
+            ([["start"], now, own], [rel, own]),
+            ([rel, ["start"], own], [rel, own]),
+            ([["start"], rel, ["dispose", 0, "L"]], [rel, own]),
+            ([["start"], ["sched", "abs", 2, "F"], own], [["sched", "abs+0530", 2, "F"], own]),
+            ([["start"], rel, rel], [any0, any0]),
+            ([["start"], rel, ["sleep", 2], own], [rel, ["sleep", 2], own]),
+            ([["start"], now, now, own], [["dispose", 1, "F"]]),
+        ]
+    return out
+
+
+def _enum3(tier):
+    for ops, ops2 in _programs3(tier):
+        yield {"sch": "ts", "ops": ops, "ops2": ops2, "sched": {"mode": "all", "K": 1}}
 
 
 def _enum(tier):
@@ -659,6 +772,7 @@ _op = st.one_of(
     st.tuples(st.just("sched"), st.just("rel"), st.integers(0, 5), _where),
     st.tuples(st.just("sched"), st.just("rel"), st.integers(1, 3), _where),
     st.tuples(st.just("sched"), st.just("abs"), st.integers(-2, 5), _where),
+    st.tuples(st.just("sched"), st.sampled_from(["abs+0530", "abs-0800", "absf"]), st.integers(-2, 5), _where),
     st.tuples(st.just("dispose"), st.integers(0, 3), _where),
     st.tuples(st.just("dispose"), st.integers(0, 3), _where),
     st.tuples(st.just("dispose"), st.integers(0, 3), _where),
@@ -696,8 +810,37 @@ _gen = st.fixed_dictionaries(
 )
 
 
+_op2 = st.one_of(
+    _op.filter(lambda o: o[0] == "sched"),
+    st.tuples(st.just("dispose"), st.integers(-2, 3), st.sampled_from(["F", "F", "F", "L"])).map(list),
+    st.tuples(st.just("dispose"), st.integers(-2, 3), st.just("F")).map(list),
+    st.tuples(st.just("sleep"), st.integers(1, 4)).map(list),
+)
+_gen3 = st.fixed_dictionaries(
+    {
+        "sch": st.sampled_from(["ts", "ts", "ts", "ts", "plain"]),
+        "cur": st.sampled_from(["none", "same", "other-running"]),
+        "ops": st.tuples(
+            st.sampled_from([True, True, False]), st.lists(_op, max_size=1), _sched_op, st.lists(_mid_op, max_size=2), st.lists(_op2, max_size=2), st.lists(_op, max_size=1)
+        ).map(lambda t: ([["start"]] if t[0] else []) + t[1] + [t[2]] + t[3] + t[4] + t[5]),
+        "ops2": st.tuples(st.lists(_op2, max_size=2), st.tuples(st.just("dispose"), st.integers(-2, 3), st.just("F")).map(list), st.lists(_op2, max_size=1)).map(
+            lambda t: t[0] + [t[1]] + t[2]
+        ),
+        "sched": st.fixed_dictionaries(
+            {
+                "mode": st.just("prio"),
+                "first": st.sampled_from([0, 2, 1]),
+                "flips": st.sampled_from([1, 2, 1, 3, 2, 3, 0]).flatmap(lambda n: st.lists(st.integers(0, 4095), min_size=n, max_size=n)),
+            }
+        ),
+    }
+)
+
+
 def checks(tier):
     return [
         Check("enum", run_case, cases=_enum, shards={"quick": 8, "thorough": 16}, exhaustive=True),
         Check("gen", run_case, strategy=_gen, examples={"quick": 4000, "thorough": 16 * 8000}, shards={"quick": 8, "thorough": 16}),
+        Check("enum3", run_case, cases=_enum3, shards={"quick": 8, "thorough": 16}, exhaustive=True),
+        Check("gen3", run_case, strategy=_gen3, examples={"quick": 600, "thorough": 16 * 3000}, shards={"quick": 8, "thorough": 16}),
     ]
